@@ -9,7 +9,7 @@ from vf.runner import Acc, filler
 PROPERTY = "C06"
 CONCUR_FILES = ('bits/bips/bip173.py', 'bits/bips/bip350.py', 'bits/utils.py')
 # (thread a, thread b), warm-up: indices into seq_ops() - the ordinary single-case checks run concurrently (vf/concur.py)
-CONCUR_SCEN = [((0, 1), ()), ((4, 9), (5,)), ((9, 7), (4, 10)), ((9, 9), (4,))]
+CONCUR_SCEN = [((0, 1), ()), ((4, 9), (5,)), ((9, 7), (4, 10)), ((9, 9), (4,)), ((4, 9, 7), (5,))]   # the last one: three threads
 LEVEL = "exploration"
 RULE = ("round trip: FULL product 3 networks x versions 0..16 x every allowed program length (v0: 20,32; v1+: 2..40) x 8 content "
         "patterns (zeros, ones, filler, 0x80.., ..01, single-bit patterns); accept set: for 7 base addresses ALL single-character "
@@ -290,7 +290,7 @@ def jobs(tier, seed):
     from vf.runner import seq_jobs
     js += seq_jobs(2, weight=2)
     from vf.runner import concur_jobs
-    js += concur_jobs(len(CONCUR_SCEN))
+    js += concur_jobs(len(CONCUR_SCEN) - (1 if tier == "quick" else 0))
     return js
 
 
@@ -302,7 +302,7 @@ def run_job(job):
         return run_concur_job(job, scens, run_case, PROPERTY, CONCUR_FILES)
     if job["part"] == "seq":
         from vf.runner import run_seq_job
-        return run_seq_job(job, seq_ops(job), run_case)
+        return run_seq_job(job, seq_ops(job), run_case, depth=3 if job["tier"] == "quick" else 4)
     acc = Acc(job)
     seed = job["seed"]
     if job["part"] == "rt":
